@@ -757,3 +757,65 @@ Definition path_dir (p : string) : string :=
    Decidable class predicate on the exact value (num # den) of the divisor. *)
 Definition reciprocal_overflows (num den : Z) : bool :=
   (0 <? num) && (0 <? den) && (num * 2 ^ 1024 <? den).
+
+(* ------------------------------------------------------------------ the "Active filters" legend (glue)
+   driver.reportOptions collects name=value for the non-empty filter options, in this order;
+   report.legendActiveFilters (report.go) prints them under "Active filters:", each cut to 80 BYTES
+   (s[:80] + "…") when longer. *)
+Definition filter_names : list string :=
+  ["focus"; "ignore"; "hide"; "show"; "show_from"; "tagfocus"; "tagignore"; "tagshow"; "taghide"].
+
+Definition ellipsis : string := B [226; 128; 166].   (* U+2026 in UTF-8 *)
+
+Definition legend_line (s : string) : outcome string :=
+  if (80 <? String.length s)%nat
+  then bind (slice_to s 80) (fun p => Ok ("   " ++ p ++ ellipsis))
+  else Ok ("   " ++ s).
+
+Fixpoint legend_lines (l : list string) : outcome (list string) :=
+  match l with
+  | [] => Ok []
+  | s :: r => bind (legend_line s) (fun x => bind (legend_lines r) (fun xs => Ok (x :: xs)))
+  end.
+
+(* legendActiveFilters: no lines at all when no filter is active (reportLabels checks len > 0) *)
+Definition legend_active_filters (active : list string) : outcome (list string) :=
+  match active with
+  | [] => Ok []
+  | _ => bind (legend_lines active) (fun ls => Ok ("Active filters:" :: ls))
+  end.
+
+Section Legend.
+  Variable flds : list cfield.
+  (* reportOptions.addFilter over the configuration of the report *)
+  Definition active_filters (cfg : config) : list string :=
+    flat_map (fun n => match field_value flds cfg n with
+                       | TS "" => []
+                       | TS v => [n ++ "=" ++ v]
+                       | _ => []
+                       end) filter_names.
+End Legend.
+
+(* the same for a command line: the last -name=value (or --name=value) of each filter option *)
+Fixpoint last_flag (name : string) (args : list string) (acc : string) : string :=
+  match args with
+  | [] => acc
+  | a :: r =>
+      let a1 := trim_prefix "-" a in
+      let a2 := trim_prefix "-" a1 in
+      if has_prefix (name ++ "=") a2 then last_flag name r (drop (String.length name + 1) a2)
+      else last_flag name r acc
+  end.
+Definition cli_active_filters (args : list string) : list string :=
+  flat_map (fun n => let v := last_flag n args "" in if String.eqb v "" then [] else [n ++ "=" ++ v]) filter_names.
+
+(* Unicode white space as UTF-8 byte sequences (what strings.TrimSpace / Fields remove beyond ASCII);
+   over-approximated: every E2 80 xx counts *)
+Fixpoint has_unicode_space (s : string) : bool :=
+  match s with
+  | EmptyString => false
+  | String _ r =>
+      has_prefix (B [194; 133]) s || has_prefix (B [194; 160]) s || has_prefix (B [225; 154; 128]) s ||
+      has_prefix (B [226; 128]) s || has_prefix (B [226; 129; 159]) s || has_prefix (B [227; 128; 128]) s ||
+      has_unicode_space r
+  end.
